@@ -159,6 +159,7 @@ impl Recorder {
 			"waited" => rec.rec(Ev::new("waited").x(a as i64)),
 			"timer_fired" => rec.rec(Ev::new("timer_fired").x(a as i64).flag(b)),
 			"loop_exit" => rec.rec(Ev::new("loop_exit")),
+			"recv" => rec.rec(Ev::new("recv").id(b as i64).x(a as i64)),
 			other => rec.rec(Ev::new(other).x(a as i64).n(b as i64)),
 		})
 	}
